@@ -33,6 +33,10 @@ pub fn main(args: &[String]) {
                 if kind == "register" {
                     dbs.register_pending_opp(op, format!("set-primary x{}", op), &n);
                     true
+                } else if kind == "leave" {
+                    // what `leave` / `replicate-leave`, a dying connection and a re-join do to the member
+                    dbs.remove_cluster_member(&n);
+                    true
                 } else {
                     dbs.acknowledge_pending_opp(op, &n)
                 }
